@@ -128,7 +128,7 @@ def parseDictValue (vt : VT) (v : String) : Option Bytes :=
   | .str => bytesOfHex v
 
 def parseDictValues (vt : VT) (s : String) : Option (List Bytes) :=
-  if s == "-" then some [] else (s.splitOn ";").mapM (parseDictValue vt)
+  if s == "~" then some [] else (s.splitOn ";").mapM (parseDictValue vt)
 
 def parseItems (vt : VT) (s : String) : Option (List Bytes) :=
   if s == "_" || s == "" then some []
